@@ -8,22 +8,27 @@ EXTENDS ABI, Json
 CONSTANTS MaxSuffix
 
 Rep(t, k) == [q \in 1..k |-> t]
-Abis == {"sysv64", "win64", "vectorcall64"}
-Types(abi) == IF abi = "sysv64" THEN {"i8", "u16", "i32", "i64", "f32", "f64", "i32x2", "f32x4", "f64x4", "f32x16"}
+Abis == {"sysv64", "win64", "vectorcall64", "aapcs64", "apple64"}
+A64Abis == {"aapcs64", "apple64"}
+Types(abi) == IF abi \in A64Abis THEN {"i8", "u16", "i32", "i64", "f32", "f64", "i32x2", "f32x4"}
+              ELSE IF abi = "sysv64" THEN {"i8", "u16", "i32", "i64", "f32", "f64", "i32x2", "f32x4", "f64x4", "f32x16"}
               ELSE IF abi = "win64" THEN {"i8", "u16", "i32", "i64", "f32", "f64", "f32x4", "f64x4"}
               ELSE {"i32", "i64", "f32", "f64", "f32x4", "f64x4"}
-Prefixes(abi) == IF abi = "sysv64" THEN { <<>>, Rep("i64", 6), Rep("f64", 8), Rep("i64", 6) \o Rep("f64", 8), Rep("f32", 9), Rep("i64", 7) \o Rep("f32", 9) }
+Prefixes(abi) == IF abi \in A64Abis THEN { <<>>, <<"i32">>, Rep("i64", 8), Rep("f64", 8), Rep("i64", 8) \o Rep("f64", 8), Rep("i32", 9), Rep("i64", 8) \o Rep("f32", 9), Rep("i64", 8) \o <<"i8">> }
+                 ELSE IF abi = "sysv64" THEN { <<>>, Rep("i64", 6), Rep("f64", 8), Rep("i64", 6) \o Rep("f64", 8), Rep("f32", 9), Rep("i64", 7) \o Rep("f32", 9) }
                  ELSE { <<>>, Rep("i64", 3), Rep("i64", 4), Rep("f64", 4), Rep("f64", 5), <<"f32x4", "i32", "i32", "i32">>, Rep("f32", 6) }
 
-VARIABLES abi, args, k
-vars == <<abi, args, k>>
-Init == abi \in Abis /\ args \in Prefixes(abi) /\ k = 0
+VARIABLES abi, args, k, va
+vars == <<abi, args, k, va>>
+(* variadic variants only where the ABI treats variadic arguments differently (Apple): everything after the prefix is variadic *)
+Init == /\ abi \in Abis /\ args \in Prefixes(abi) /\ k = 0
+        /\ va \in (IF abi = "apple64" /\ Len(args) >= 1 THEN {255, Len(args)} ELSE {255})
 Next == /\ k < MaxSuffix
         /\ \E t \in Types(abi) : args' = Append(args, t)
-        /\ k' = k + 1 /\ UNCHANGED abi
+        /\ k' = k + 1 /\ UNCHANGED <<abi, va>>
 Spec == Init /\ [][Next]_vars
 
 Flat(l) == <<l.k, l.g, l.id, l.off, l.ind>>
-Exp == LET sts == States(abi, args, 255) IN [q \in 1..Len(args) |-> Flat(PrimaryLoc(sts[q].pk[1]))]
-Export == PrintT(ToJson(<<"EXP", abi, args, [q \in 1..Len(args) |-> Sz(args[q])], Exp>>))
+Exp == LET sts == States(abi, args, va) IN [q \in 1..Len(args) |-> Flat(PrimaryLoc(sts[q].pk[1]))]
+Export == PrintT(ToJson(<<"EXP", abi, args, [q \in 1..Len(args) |-> Sz(args[q])], Exp, va>>))
 =============================================================================
